@@ -84,11 +84,18 @@ pub fn load_certs(filename: &str) -> io::Result<Vec<Certificate>> {
     CertificateDer::pem_slice_iter(pem_data.as_bytes())
         .collect::<Result<Vec<_>, _>>()
         .map_err(|e| io::Error::new(ErrorKind::InvalidInput, format!("Invalid cert: {}", e)))
-        .map(|certs| {
-            certs
+        .and_then(|certs| {
+            // A chain file without a single certificate cannot be served
+            if certs.is_empty() {
+                return Err(io::Error::new(
+                    ErrorKind::InvalidInput,
+                    "No certificates found",
+                ));
+            }
+            Ok(certs
                 .into_iter()
                 .map(|c| Certificate(c.into_owned().to_vec()))
-                .collect()
+                .collect())
         })
 }
 
